@@ -17,17 +17,16 @@ not-negative numbers assumed not negative).  A line of the reviewed baseline
 parenthesis, a wrong operand — is a broken obligation.
 
 Soundness (`Proofs/SignSound.lean`): `absBody_sound` (mutual induction over the whole DSL, loops by a
-checked invariant), `closedWith_line`, and `nnLine_sound_partial5` (`Proofs/SignSound2.lean`): for a line
-that passes the analysis, against ALL stores whose inputs are not negative (a) and whose stored values under
-keys of `S` are not-negative numbers (b), a value returned by `Dsl.run` of `evalLine` is a not-negative
-number.  Proved for the whole language: field wrapper, builtin table (`max`/`min` with the NaN-safe rule,
-`float`, `round`, `ceil`, `len`, `list`, `range`, `str`), `+ - * /`, thresholds, indexing, loops, helper
-calls, and the string lemmas that a literal, qualified or `prefix{n}suffix` key denotes the (class, line) the
-analysis computed (`key_sound`, `fstr_sound`).  `closed_line_sound` is the induction step of the lift to solver
-states: every line of a closed set returns a not-negative number when the lines of the set it reads hold
-not-negative numbers.  PARTIAL: one closed fact is still a hypothesis, `RoundFloatNegFact` (`round(x, n)` of a
-float with NEGATIVE `n`, which no shipped line uses); the larger sets additionally trust `sum`; the lift itself
-is not proved.
+checked invariant), `closedWith_line`, and **`nnLine_sound`** (`Proofs/SignSound2.lean`), with no hypothesis
+left about the language: for a line that passes the analysis, against ALL stores whose inputs are not negative
+(a) and whose stored values under keys of `S` are not-negative numbers (b), a value returned by `Dsl.run` of
+`evalLine` is a not-negative number.  It covers the field wrapper, the builtin table (`max`/`min` with the
+NaN-safe rule, `float`, `round`, `ceil`, `len`, `list`, `range`, `str`), `+ - * /`, thresholds, indexing, loops,
+helper calls, and the string lemmas that a literal, qualified or `prefix{n}suffix` key denotes the (class, line)
+the analysis computed (`key_sound`, `fstr_sound`).  `closed_line_sound'` is the induction step of the lift to
+solver states: every line of a closed set returns a not-negative number when the lines of the set it reads hold
+not-negative numbers.  PARTIAL: the lift itself (an invariant over solver states) is not proved, and the larger
+`sum` sets trust that CPython's compensated `sum` of not-negative numbers is not negative.
 -/
 set_option autoImplicit false
 
@@ -78,6 +77,9 @@ end HabuVerif.C15Sign
 #print axioms HabuVerif.Sign.key_sound
 #print axioms HabuVerif.Sign.fstr_sound
 #print axioms HabuVerif.Sign.roundFact
+#print axioms HabuVerif.Sign.roundFloatNegFact
+#print axioms HabuVerif.Sign.nnLine_sound
+#print axioms HabuVerif.Sign.closed_line_sound'
 #print axioms HabuVerif.Sign.restFacts_of
 #print axioms HabuVerif.Sign.wrapFact
 #print axioms HabuVerif.Sign.call_sound
